@@ -496,6 +496,7 @@ def gen_scenario(rng):
                        "val": {"k": "s", "v": V.enc(val)}, "cls": cls}
     mode = rng.choices(["vec", "promoted", "view", "shared", "tset", "rencols", "vec_fp"], [30, 8, 14, 5, 28, 10, 5])[0]
     target = None
+    planted = False
     if mode in ("vec", "promoted", "vec_fp", "shared"):
         if mode == "shared":
             do(g.g_input_tuple(w, []))
@@ -529,8 +530,9 @@ def gen_scenario(rng):
             g.k["kinds"] = ["int", "int", "bool", "float"]      # several columns of one kind: broadcasts hit them all
         do(g.g_tab_dict(w, []))
         target = setup[-1]["out"]
-        if rng.random() < 0.15:
+        if rng.random() < 0.25:
             # an int too large for a float in some int column: a later promotion of that column fails
+            planted = True
             ti = Info(w.handles[target])
             ints = [j for j in range(ti.ncols) if ti.colkinds[j] == "int"]
             if ints and ti.n:
@@ -549,7 +551,14 @@ def gen_scenario(rng):
         return None
     infos = [Info(e)]
     g.focus = [target]
-    if mode == "tset":
+    if mode == "tset" and planted and infos[0].n and rng.random() < 0.4:
+        # one wider scalar broadcast over whole rows: every int column is promoted, the one holding
+        # the unrepresentable int cannot be
+        n = infos[0].n
+        rows = {"k": "int", "i": rng.randrange(n)} if rng.random() < 0.5 else {"k": "slice", "a": None, "b": None, "s": None}
+        rec = {"op": "tset", "t": target, "rows": rows, "cols": None, "shape": "scalar",
+               "val": {"k": "s", "v": V.enc(V.pick_value(rng, rng.choice(["float", "complex"]), 0.0))}}
+    elif mode == "tset":
         rec = g.g_tset(w, infos)
     elif mode == "rencols":
         rec = g.g_rencols(w, infos)
